@@ -10,6 +10,7 @@ import (
 	"fmt"
 	"io"
 	"sort"
+	"strings"
 	"time"
 
 	"github.com/buildbarn/bb-remote-execution/pkg/filesystem/pool"
@@ -63,11 +64,11 @@ func (r *vdRNG) Uint64() uint64 {
 	r.ctr++
 	return vdMix(r.ctr)
 }
-func (r *vdRNG) Uint32() uint32         { return uint32(r.Uint64() >> 32) }
-func (r *vdRNG) Float64() float64       { return float64(r.Uint64()>>11) / (1 << 53) }
-func (r *vdRNG) Int64N(n int64) int64   { return int64(r.Uint64() % uint64(n)) }
-func (r *vdRNG) IntN(n int) int         { return int(r.Uint64() % uint64(n)) }
-func (r *vdRNG) IsThreadSafe()          {}
+func (r *vdRNG) Uint32() uint32       { return uint32(r.Uint64() >> 32) }
+func (r *vdRNG) Float64() float64     { return float64(r.Uint64()>>11) / (1 << 53) }
+func (r *vdRNG) Int64N(n int64) int64 { return int64(r.Uint64() % uint64(n)) }
+func (r *vdRNG) IntN(n int) int       { return int(r.Uint64() % uint64(n)) }
+func (r *vdRNG) IsThreadSafe()        {}
 func (r *vdRNG) Read(p []byte) (int, error) {
 	for i := range p {
 		p[i] = byte(r.Uint64())
@@ -101,9 +102,36 @@ type vdMemPool struct {
 	failing bool
 	opened  int
 	closed  int
+	// arm is a one-shot fault: the next call of the named method on ANY
+	// file of this pool fails (and disarms it). The engine arms it right
+	// before one call into /repo and disarms it right after, so it is
+	// always known which call it belongs to.
+	arm       vdIOFault
+	faultsHit int
 }
 
-var errVdPool = errors.New("vfsdir: injected file pool failure")
+// vdIOFault names the pool file method that is to fail once: "read",
+// "write", "truncate" or "seek" (GetNextRegionOffset). For "write"/"read",
+// Short is the number of bytes that are still transferred before the error.
+type vdIOFault struct {
+	Op    string
+	Short int
+}
+
+var (
+	errVdPool = errors.New("vfsdir: injected file pool failure")
+	errVdIO   = errors.New("vfsdir: injected pool file I/O failure")
+)
+
+func (p *vdMemPool) take(op string) (vdIOFault, bool) {
+	if p.arm.Op != op {
+		return vdIOFault{}, false
+	}
+	a := p.arm
+	p.arm = vdIOFault{}
+	p.faultsHit++
+	return a, true
+}
 
 func (p *vdMemPool) NewFile(holeSource pool.HoleSource, size uint64) (filesystem.FileReadWriter, error) {
 	if p.failing {
@@ -134,6 +162,13 @@ func (f *vdMemFile) Close() error {
 
 func (f *vdMemFile) ReadAt(p []byte, off int64) (int, error) {
 	f.check()
+	if a, hit := f.pool.take("read"); hit {
+		n := 0
+		if off < int64(len(f.data)) {
+			n = copy(p[:min(a.Short, len(p))], f.data[off:])
+		}
+		return n, errVdIO
+	}
 	if off >= int64(len(f.data)) {
 		return 0, io.EOF
 	}
@@ -146,6 +181,16 @@ func (f *vdMemFile) ReadAt(p []byte, off int64) (int, error) {
 
 func (f *vdMemFile) WriteAt(p []byte, off int64) (int, error) {
 	f.check()
+	if a, hit := f.pool.take("write"); hit {
+		n := min(a.Short, len(p))
+		if n > 0 {
+			if end := off + int64(n); end > int64(len(f.data)) {
+				f.data = append(f.data, make([]byte, end-int64(len(f.data)))...)
+			}
+			copy(f.data[off:], p[:n])
+		}
+		return n, errVdIO
+	}
 	if end := off + int64(len(p)); end > int64(len(f.data)) {
 		f.data = append(f.data, make([]byte, end-int64(len(f.data)))...)
 	}
@@ -155,6 +200,9 @@ func (f *vdMemFile) WriteAt(p []byte, off int64) (int, error) {
 
 func (f *vdMemFile) Truncate(size int64) error {
 	f.check()
+	if _, hit := f.pool.take("truncate"); hit {
+		return errVdIO
+	}
 	if size <= int64(len(f.data)) {
 		f.data = f.data[:size]
 	} else {
@@ -169,6 +217,9 @@ func (f *vdMemFile) Len() (int64, error) { f.check(); return int64(len(f.data)),
 
 func (f *vdMemFile) GetNextRegionOffset(offset int64, regionType filesystem.RegionType) (int64, error) {
 	f.check()
+	if _, hit := f.pool.take("seek"); hit {
+		return 0, errVdIO
+	}
 	if offset >= int64(len(f.data)) {
 		return 0, io.EOF
 	}
@@ -231,6 +282,14 @@ type vdSpec struct {
 	Failing  bool          `json:"failing,omitempty"`
 }
 
+func (s *vdSpec) names() []string {
+	var out []string
+	for _, c := range s.Children {
+		out = append(out, c.Name)
+	}
+	return out
+}
+
 func (s *vdSpec) dirCount() int {
 	n := 0
 	for _, c := range s.Children {
@@ -250,12 +309,25 @@ type vdFetcher struct {
 	failing   bool
 	calls     int
 	successes int
-	leaves    map[string]virtual.LinkableLeaf
-	subs      map[string]*vdFetcher
+	// collides: two of the declared names are one name under the case
+	// folding normaliser; the directory rejects what was fetched and asks
+	// again next time.
+	collides bool
+	leaves   map[string]virtual.LinkableLeaf
+	subs     map[string]*vdFetcher
 }
 
 func newVdFetcher(w *vdWorld, spec *vdSpec) *vdFetcher {
 	f := &vdFetcher{w: w, spec: spec, failing: spec.Failing, leaves: map[string]virtual.LinkableLeaf{}, subs: map[string]*vdFetcher{}}
+	if w.caseFold {
+		seen := map[string]bool{}
+		for _, c := range spec.Children {
+			if seen[strings.ToLower(c.Name)] {
+				f.collides = true
+			}
+			seen[strings.ToLower(c.Name)] = true
+		}
+	}
 	for _, c := range spec.Children {
 		if c.Kind == "dir" {
 			f.subs[c.Name] = newVdFetcher(w, c.Sub)
@@ -264,7 +336,22 @@ func newVdFetcher(w *vdWorld, spec *vdSpec) *vdFetcher {
 	return f
 }
 
-func (f *vdFetcher) VirtualApply(data any) bool { return false }
+// vdApplyProbe is the only payload this fetcher understands; everything else
+// is answered with false, as InitialContentsFetcher.VirtualApply documents for
+// unknown operations.
+type vdApplyProbe struct {
+	seenBy *vdFetcher
+	calls  int
+}
+
+func (f *vdFetcher) VirtualApply(data any) bool {
+	if p, ok := data.(*vdApplyProbe); ok {
+		p.seenBy = f
+		p.calls++
+		return true
+	}
+	return false
+}
 
 func (f *vdFetcher) FetchContents(fileReadMonitorFactory virtual.FileReadMonitorFactory) (map[path.Component]virtual.InitialChild, error) {
 	f.calls++
@@ -272,7 +359,7 @@ func (f *vdFetcher) FetchContents(fileReadMonitorFactory virtual.FileReadMonitor
 		return nil, errVdFetch
 	}
 	f.successes++
-	if f.successes > 1 {
+	if f.successes > 1 && !f.collides {
 		f.w.problems = append(f.w.problems, "InitialContentsFetcher.FetchContents was called again after it had succeeded")
 	}
 	out := map[path.Component]virtual.InitialChild{}
